@@ -186,6 +186,12 @@ def run(spec):
                     V.check('derived_values', st.get('tri') == 3 * st.get('n') and st.get('tri2') == 3 * st.get('n') + 1,
                             lambda: ('row at t=%r, cell %s: n=%r tri=%r tri2=%r (derivers did not run one after the other on this batch)' % (
                                 t, key, st.get('n'), st.get('tri'), st.get('tri2'))))
+                h1 = [iid for iid, rec in w.items() if rec[0] == path + ('sub', 'h1')]
+                h2 = [iid for iid, rec in w.items() if rec[0] == path + ('sub', 'h2')]
+                if h1 and h2 and ran.get(h1[0]) == 1 and ran.get(h2[0]) == 1:
+                    V.check('derived_values', st.get('hx') == 6 * st.get('n') and st.get('ox') == 6 * st.get('n') + 1,
+                            lambda: ('row at t=%r, cell %s: n=%r hx=%r ox=%r (nested flow steps did not run in dependency order on this batch)' % (
+                                t, key, st.get('n'), st.get('hx'), st.get('ox'))))
                 if f1 and f2 and ran.get(f1[0]) == 1 and ran.get(f2[0]) == 1:
                     V.check('derived_values', st.get('twice') == 2 * st.get('n') and st.get('quad') == 4 * st.get('n'),
                             lambda: ('row at t=%r, cell %s: n=%r twice=%r quad=%r (steps did not see this batch / ran out of order)' % (
